@@ -62,7 +62,7 @@ OPTS = [
     {'default': 't2', 'populate_defaults': 'F', 'validator': 'v3'},
     {'help': 'ho', 'bogus': 'x'},
 ]
-NAMESPACES = [[], [['n']], [['n'], ['m']]]
+NAMESPACES = [[], [['n']], [['n'], ['m']], [['n'], ['m'], ['k']]]
 
 # name pools with string-prefix pairs on purpose: a/ab at the top, x/xy below
 POOLS = [[['a'], ['a', 'b'], ['b']], [['x'], ['x', 'y'], ['y']], [['z']]]
@@ -168,7 +168,35 @@ def destinations(io):
     n['ports'] = [leaf(['m'], a, L[1])]
     d['ports'] = [n]
     out.append(d)
+    # ---- the state of the namespaces ON THE WAY to the target (n, n.m, n.m.k) in the destination: besides absent (0, 1),
+    # taken by a leaf (3, 4) and non-empty (2, 4), a namespace that EXISTS AND HOLDS NO PORTS YET (an empty PortNamespace is a
+    # falsy MutableMapping), with non-default properties (5, 7) and with the constructor defaults (6: only the identity of the
+    # object tells it from a namespace made by the call)
+    a = Alloc(100)
+    out.append(ns([root], a, N[0], [leaf(['c'], a, L[0]), ns(['n'], a, N[1])]))
+    a = Alloc(100)
+    out.append(ns([root], a, N[1], [ns(['n'], a, N[0])]))
+    a = Alloc(100)
+    d = ns([root], a, N[0])
+    n = ns(['n'], a, N[2])
+    n['ports'] = [ns(['m'], a, N[3])]
+    d['ports'] = [n]
+    out.append(d)
     return out
+
+
+def refuses(dest, nsp):
+    """A name on the way to (or at) the target namespace is taken by a leaf port of the destination (harness-side only: used to
+    give such contexts the few rule sets; whether the call IS refused is decided by Refused / CreateNs in Expose.tla)."""
+    node = dest
+    for name in nsp:
+        sub = [p for p in node['ports'] if p['name'] == list(name)]
+        if not sub:
+            return False
+        if sub[0]['kind'] == 'leaf':
+            return True
+        node = sub[0]
+    return False
 
 
 def paths_of(tree, prefix=()):
@@ -220,10 +248,10 @@ def universe(tier, seed):
     rng = random.Random(1000003 * int(seed) + 15)
     if tier == 'quick':
         bounds = dict(pool='small', nodes=4, depth=2, deep_pool='small', deep_nodes=4, deep_depth=3, deep_share=2, out_share=4,
-                      block_b_trees=3, per_ns=1)
+                      block_b_trees=2, per_ns=1, ns3_share=3)
     else:
         bounds = dict(pool='full', nodes=5, depth=2, deep_pool='small', deep_nodes=5, deep_depth=3, deep_share=1, out_share=3,
-                      block_b_trees=8, per_ns=1)
+                      block_b_trees=8, per_ns=1, ns3_share=1)
     pools = {'full': POOLS, 'small': POOLS_SMALL}
     base = shapes(0, bounds['nodes'], bounds['depth'], pools[bounds['pool']])
     seen = {repr(s) for s in base}
@@ -236,7 +264,10 @@ def universe(tier, seed):
     dests = dests_in + dests_out
     nd = len(dests_in)
     ctxs = []
-    rot = rng.randrange(1000)
+    # rotation of destination and options: one counter per (in/out, target namespace), so that every target namespace meets
+    # every destination (and, over the rounds, every options dictionary) whatever the numbers of namespaces / destinations are
+    rot = {}
+    start = rng.randrange(1000)
     for si, sh in enumerate(allshapes):
         flavours = ['in'] + (['out'] if si % bounds['out_share'] == 0 else [])
         for io in flavours:
@@ -244,13 +275,16 @@ def universe(tier, seed):
             tree_io.append(io)
             t = len(trees)
             for ni, nsp in enumerate(NAMESPACES):
+                # the three-level target namespace: on a share of the trees only (quick tier)
+                if len(nsp) >= 3 and (t + start) % bounds['ns3_share'] != 0:
+                    continue
                 for k in range(bounds['per_ns']):
-                    rot += 1
-                    d = rot % nd
-                    o = (rot // nd + ni + k) % len(OPTS)
+                    r = rot[io, ni] = rot.get((io, ni), start + ni) + 1
+                    d = r % nd
+                    o = (r // nd + ni + k) % len(OPTS)
                     # a combination the call refuses whatever the rules are (target name taken by a leaf port, unknown option
                     # key) gets the few rule sets only
-                    refusing = 'bogus' in OPTS[o] or (d == 3 and ni > 0) or (d == 4 and ni == 2)
+                    refusing = 'bogus' in OPTS[o] or refuses(dests_in[d], nsp)
                     ctxs.append({'t': t, 'd': d + 1 + (nd if io == 'out' else 0), 'ns': nsp, 'o': o + 1, 'io': io,
                                  'rs': 'few' if refusing else 'all'})
     # block B
